@@ -38,7 +38,15 @@ func c06Scenarios(cfg runCfg) []Scenario {
 		if r.chance(1, 8) {
 			name = strings.Repeat(name+"/", 1+180/(len(name)+1))[:180] // up to ~180 bytes
 		}
-		out = append(out, Scenario{Family: "history", Seed: mix(cfg.seed, 6, uint64(i)), S: name, X: map[string]string{"out": c06Outputs[i%len(c06Outputs)]}})
+		if r.chance(1, 10) {
+			// as long as a name can be: "<name>-<14 digit time>-<pid>.fail" still has to fit into 255 bytes
+			name = strings.Repeat("LongTestName_", 20)[:r.between(205, 226)]
+		}
+		x := map[string]string{"out": c06Outputs[i%len(c06Outputs)]}
+		if r.chance(1, 6) {
+			x["two"] = "1" // the test function calls Check twice (a passing property first)
+		}
+		out = append(out, Scenario{Family: "history", Seed: mix(cfg.seed, 6, uint64(i)), S: name, X: x})
 	}
 	return out
 }
@@ -131,6 +139,13 @@ func c06Run(t *testing.T, sc Scenario, res *Result) {
 	if r.chance(1, 2) {
 		fl1["rapid.seed"] = fmt.Sprint(sc.Seed%100000 + 1)
 	}
+	two := sc.X["two"] == "1"
+	okBody := func(x *X) { x.draw(rapid.Uint8().AsAny(), "ok") }
+	if two {
+		// the same test calls Check twice: a property that always passes, then the failing one
+		runBody(okBody, runOpts{name: name, flags: fl1})
+		res.inc("two_check_histories")
+	}
 	run1 := runBody(body, runOpts{name: name, flags: fl1})
 	res.inc("histories")
 	detail := map[string]any{"name": name, "sanitized": sanitize(name), "output": outKind, "threshold": thr, "run1": run1.tb.brief()}
@@ -200,6 +215,13 @@ func c06Run(t *testing.T, sc Scenario, res *Result) {
 			}
 		}
 		res.inc("run2:" + tag)
+	}
+	if two {
+		// next run of the test: the passing Check comes first again and sees (and must leave alone) the other Check's fail file
+		ok2 := runBody(okBody, runOpts{name: name, flags: map[string]string{"rapid.shrinktime": shrink}})
+		if ok2.tb.Failed() {
+			res.inc("two_check_first_check_failed_on_foreign_file")
+		}
 	}
 	run2 := runBody(body, runOpts{name: name, flags: map[string]string{"rapid.shrinktime": shrink}})
 	judge2("auto", run2)
